@@ -23,6 +23,10 @@ Definition reported_members (scope : nat -> bool) (members : list nat) : list (o
 Definition bag_result_keys (objs : list nat) : list (option K) :=
   map (pk_after_flush bag_to_dict_flushes_session (fun _ => false)) objs.
 
+(* Database.to_json: the "pk" written for the instances of the data section and the keys of the objects section *)
+Definition db_to_json_keys (objs : list nat) : list (option K) :=
+  map (pk_after_flush db_to_json_flushes_session (fun _ => false)) objs.
+
 Definition final_key (o : nat) : K := match pk o with Some k => k | None => assign o end.
 
 End Flush.
